@@ -121,8 +121,31 @@ func c19Plain(c *mon.Ctx, r *mon.Rand) {
 	c.Eval(1)
 	c.Distinct(mon.Hash64("plain", fmt.Sprint(n, r.U64())))
 	c.Class(fmt.Sprintf("plain-children-%d", n), 1)
+	// a third of the histories with two or more children put a run of them into
+	// a multi reporter of their own (fan-outs nest); the leaves keep their order
+	if len(children) >= 2 && r.Chance(1, 3) {
+		a := r.Intn(len(children) - 1)
+		b := a + 2 + r.Intn(len(children)-a-1)
+		inner := multi.NewMultiReporter(append([]tally.StatsReporter(nil), children[a:b]...)...)
+		children = append(append(append([]tally.StatsReporter(nil), children[:a]...), inner), children[b:]...)
+		c.Class("histories-with-a-nested-multi-reporter", 1)
+	}
+	// half of the histories: the caller re-uses the slice it passed to the
+	// constructor for something else
+	decoy := mon.NewPlainRec(true)
+	scribble := r.Bool()
 	c.Guard("panic-multi", desc, func() {
 		m := multi.NewMultiReporter(children...)
+		if scribble {
+			for i := range children {
+				children[i] = decoy
+			}
+		}
+		defer func() {
+			if dl, _, _ := decoy.Snapshot(); len(dl) > 0 {
+				c.Violation("multi-call-to-a-reporter-that-is-not-a-child", map[string]interface{}{"why": fmt.Sprintf("the caller overwrote the slice it had passed to NewMultiReporter with another reporter, which then received %d calls (first: %s)", len(dl), evSig(dl[0])), "case": desc()})
+			}
+		}()
 		if cp := m.Capabilities(); cp.Reporting() != wantRep || cp.Tagging() != wantTag {
 			c.Violation("multi-capabilities", map[string]interface{}{"why": fmt.Sprintf("capabilities %v/%v, conjunction of children is %v/%v", cp.Reporting(), cp.Tagging(), wantRep, wantTag), "case": desc()})
 		}
@@ -231,8 +254,27 @@ func c19Cached(c *mon.Ctx, r *mon.Rand) {
 			defer rep.Close()
 		}
 	}
+	if len(children) >= 2 && r.Chance(1, 3) {
+		a := r.Intn(len(children) - 1)
+		b := a + 2 + r.Intn(len(children)-a-1)
+		inner := multi.NewMultiCachedReporter(append([]tally.CachedStatsReporter(nil), children[a:b]...)...)
+		children = append(append(append([]tally.CachedStatsReporter(nil), children[:a]...), inner), children[b:]...)
+		c.Class("histories-with-a-nested-multi-reporter", 1)
+	}
+	decoy := mon.NewCachedRec(true)
+	scribble := r.Bool()
 	c.Guard("panic-multi", desc, func() {
 		m := multi.NewMultiCachedReporter(children...)
+		if scribble {
+			for i := range children {
+				children[i] = decoy
+			}
+		}
+		defer func() {
+			if dl, _, _ := decoy.Snapshot(); len(dl) > 0 {
+				c.Violation("multi-call-to-a-reporter-that-is-not-a-child", map[string]interface{}{"why": fmt.Sprintf("the caller overwrote the slice it had passed to NewMultiCachedReporter with another reporter, which then received %d calls (first: %s)", len(dl), evSig(dl[0])), "case": desc()})
+			}
+		}()
 		if cp := m.Capabilities(); cp.Reporting() != wantRep || cp.Tagging() != wantTag {
 			c.Violation("multi-capabilities", map[string]interface{}{"why": fmt.Sprintf("capabilities %v/%v, conjunction of children is %v/%v", cp.Reporting(), cp.Tagging(), wantRep, wantTag), "case": desc()})
 		}
